@@ -107,7 +107,56 @@ func newReq(method, path, host string) *http.Request {
 	*r = *b
 	r.URL = &url.URL{Path: path}
 	r.Host = host
+	if len(extraHdr) > 0 {
+		r.Header = http.Header{}
+		for k, v := range b.Header {
+			r.Header[k] = v
+		}
+		for _, kv := range extraHdr {
+			// Add (not Set): the same name may be given twice; a literal "Host"
+			// header next to Request.Host is the "duplicate Host" case
+			r.Header.Add(kv[0], kv[1])
+		}
+	}
 	return r
+}
+
+// extraHdr: extra request headers of the op in flight.  Ops that carry
+// `hdr=` run one at a time (see flush), so a package variable is enough.
+var extraHdr [][2]string
+
+func parseHdr(s string) [][2]string {
+	var out [][2]string
+	for _, e := range listOf(s) {
+		p := strings.Split(e, ":")
+		if len(p) == 2 {
+			out = append(out, [2]string{unhex(p[0]), unhex(p[1])})
+		}
+	}
+	return out
+}
+
+func hdrSuffix() string {
+	if len(extraHdr) == 0 {
+		return ""
+	}
+	var xs []string
+	for _, x := range extraHdr {
+		xs = append(xs, hexs(x[0])+":"+hexs(x[1]))
+	}
+	return " hdr=" + strings.Join(xs, ",")
+}
+
+func hasHdr(op string) bool { return strings.Contains(op, " hdr=") }
+
+func stripHdr(ws []string) []string {
+	var out []string
+	for _, w := range ws {
+		if !strings.HasPrefix(w, "hdr=") {
+			out = append(out, w)
+		}
+	}
+	return out
 }
 
 type env struct {
@@ -1444,7 +1493,7 @@ func (e *env) runHost(ws []string) string {
 		}
 		if got != want {
 			e.fail("host-wrong-service", fmt.Sprintf("host %q was served by %s, the service bound to exactly this host is %s", host, got, want),
-				[]string{"host sets=" + ss + " reqs=" + q})
+				[]string{"host sets=" + ss + " reqs=" + q + hdrSuffix()})
 		}
 		out = append(out, got)
 	}
@@ -1453,7 +1502,33 @@ func (e *env) runHost(ws []string) string {
 
 // ---------------------------------------------------------------- dispatch
 
-func (e *env) runOp(line string) (out string) {
+// runOp executes one op.  An op with `hdr=<name>:<value>,...` is executed with
+// these extra request headers and once more without them: routing reads the
+// path, the method and Request.Host only, so both runs must give the same
+// result (the model has no headers at all and answers for both).
+func (e *env) runOp(line string) string {
+	if !hasHdr(line) {
+		return e.runOp1(line)
+	}
+	ws := strings.Fields(line)
+	h, _ := kv(ws, "hdr")
+	base := strings.Join(stripHdr(ws), " ")
+	want := e.runOp1(base)
+	extraHdr = parseHdr(h)
+	got := e.runOp1(base)
+	extraHdr = nil
+	if got != want {
+		var hs []string
+		for _, x := range parseHdr(h) {
+			hs = append(hs, fmt.Sprintf("%s: %s", x[0], x[1]))
+		}
+		e.fail("dispatch-depends-on-untrusted-header", fmt.Sprintf("with the extra request header(s) [%s] the dispatch changed from %s to %s (op: %s); routing must depend on path, method and Host only",
+			strings.Join(hs, "; "), clip(want), clip(got), clip(base)), []string{line})
+	}
+	return got
+}
+
+func (e *env) runOp1(line string) (out string) {
 	defer func() {
 		if x := recover(); x != nil {
 			out = "panic"
@@ -1593,6 +1668,12 @@ func (s *sink) flush() {
 	}
 	if nw < 1 {
 		nw = 1
+	}
+	for _, op := range ops {
+		if hasHdr(op) {
+			nw = 1 // extraHdr is a package variable
+			break
+		}
 	}
 	impl := make([]string, len(ops))
 	var model [][]string = make([][]string, nw)
@@ -2241,6 +2322,98 @@ func genChain(s *sink, r *hx.Rand, thorough bool) {
 	s.flush()
 }
 
+// genHeaders: the same requests with extra, client-controlled headers that
+// name bound and unbound hosts, other paths and other methods.
+func genHeaders(s *sink, r *hx.Rand, thorough bool) {
+	s.flush()
+	s.stream = "untrusted-headers"
+	hosts := []string{"a.com", "A.com", "b.com", "a.com:80", "", "c.com"}
+	hostHdrs := []string{"X-Forwarded-Host", "X-Forwarded-For", "X-Forwarded-Proto", "Forwarded", "X-Real-IP", "Host",
+		"X-Original-URL", "X-Rewrite-URL", "X-Host", "X-Forwarded-Server", "X-HTTP-Host-Override"}
+	h1 := func(k, v string) string { return hexs(k) + ":" + hexs(v) }
+	var hostSets []string
+	for _, k := range hostHdrs {
+		for _, v := range []string{"a.com", "b.com", "c.com", "A.com"} {
+			val := v
+			if k == "Forwarded" {
+				val = "for=1.2.3.4;host=" + v + ";proto=https"
+			}
+			if k == "X-Forwarded-Proto" {
+				val = "https"
+			}
+			hostSets = append(hostSets, h1(k, val))
+		}
+	}
+	hostSets = append(hostSets, h1("X-Forwarded-Host", "b.com")+","+h1("Host", "b.com")+","+h1("X-Forwarded-For", "b.com"),
+		h1("Host", "a.com")+","+h1("Host", "b.com"))
+	reqs := hexList(append(append([]string{}, hosts...), "A.COM"))
+	var bind [][]string
+	for _, a := range hosts[:4] {
+		bind = append(bind, []string{a})
+		for _, b := range hosts[:4] {
+			if a != b {
+				bind = append(bind, []string{a, b})
+			}
+		}
+	}
+	for _, bs := range bind {
+		var ss []string
+		for t, h := range bs {
+			ss = append(ss, fmt.Sprintf("%s:%d", hexs(h), t+1))
+		}
+		for _, hd := range hostSets {
+			if s.stop {
+				return
+			}
+			s.add("host sets=" + showList(ss) + " reqs=" + reqs + " hdr=" + hd)
+		}
+	}
+	// path- and method-carrying headers against Mux, Router, nested routers, router tiers, tiers
+	var pathSets []string
+	for _, k := range []string{"X-Original-URL", "X-Rewrite-URL", "X-Forwarded-Prefix", "X-Forwarded-Path", "X-Forwarded-Uri", "X-Forwarded-Host", "Host", "Forwarded"} {
+		for _, v := range []string{"/a", "/b/a", "/", "a/b/"} {
+			pathSets = append(pathSets, h1(k, v))
+		}
+	}
+	for _, k := range []string{"X-HTTP-Method-Override", "X-Method-Override", "X-HTTP-Method"} {
+		for _, v := range []string{"POST", "GET"} {
+			pathSets = append(pathSets, h1(k, v))
+		}
+	}
+	pathSets = append(pathSets, h1("X-Forwarded-Proto", "https"), h1("X-Forwarded-For", "127.0.0.1"), h1("X-Real-IP", "127.0.0.1"),
+		h1("X-Original-URL", "/b")+","+h1("X-HTTP-Method-Override", "POST")+","+h1("X-Forwarded-Host", "a.com"))
+	paths := hexList(strs(0, 3))
+	rq := showReqs(routerReqs(append(strs(0, 3), "/a/b", "/b/a", "/a/b/", "/b/a/x"), []string{"GET", "POST"}))
+	base := []string{
+		"mux regs=P:2f61:1,E:2f62:2,D:2f622f61:3,P:61:4,E:2f:5 paths=" + paths + ",2f622f61,2f622f612f78",
+		"mux regs=D:2f:1,P:2f62:2,E:61:3 paths=" + paths,
+		"router idx=90 def=91 regs=F:61:1,D:622f61:2,M474554:62:3,M504f5354:612f62:4 reqs=" + rq,
+		"router idx=- def=- regs=D:61:1,F:612f62:2,F:62:3 reqs=" + rq,
+		"nest mode=dir outer=61 scr=u idx=- def=- regs=F:62:1,D:61:2 reqs=" + rq,
+		"nest mode=tier outer=- scr=a idx=90 def=- regs=F:62:1,M504f5354:61:2 reqs=" + rq,
+		"chain d1=- d2=- d3=91 r1=F:61:1 r2=F:62:2,D:622f61:72 r3=M474554:612f62:3 reqs=" + rq,
+	}
+	for _, adm := range []string{"default", "anon", "usera"} {
+		for _, path := range []string{"/", "/x"} {
+			for _, mode := range []string{"serve", "internal"} {
+				base = append(base, fmt.Sprintf("svc mode=%s path=%s user=%s level=1 adm=%s auth=miss setup=keep res=miss guest=miss usr=ok admin=ok signin=nil",
+					mode, hexs(path), hexs("a"), adm),
+					fmt.Sprintf("svc mode=%s path=%s user=- level=0 adm=%s auth=nil setup=keep res=miss guest=miss usr=ok admin=ok signin=nil",
+						mode, hexs(path), adm))
+			}
+		}
+	}
+	for _, b := range base {
+		for _, hd := range pathSets {
+			if s.stop {
+				return
+			}
+			s.add(b + " hdr=" + hd)
+		}
+	}
+	s.flush()
+}
+
 func genHost(s *sink) {
 	s.stream = "hostmux-exhaustive"
 	hosts := []string{"a.com", "A.com", "b.com", "a.com:80", "", "a.com."}
@@ -2304,6 +2477,7 @@ func main() {
 	genRouter(s, r, false)
 	genNest(s, r, false)
 	genChain(s, r, false)
+	genHeaders(s, r, false)
 	if th {
 		genRoute(s, true)
 		genSeg(s, r, true)
